@@ -291,6 +291,15 @@ def gen_plan(seed, index, tier):
                     public=rng.random() < 0.35)
         if "bn" in plan["pm"] + plan["am"] and plan["prior_fits"] and not plan["warm_start"]:
             plan["warm_start"] = True
+        # history: the earlier fits of a re-initialising estimator saw a target of another kind (binary / multiclass /
+        # continuous, other label encoding) - nothing of it may survive into the judged fit and its predictions
+        r_kind = rng.random()
+        if plan["prior_fits"] and not plan["warm_start"] and r_kind < 0.6:
+            pool = [k for k in list(LABELSETS) + ["cont"] if k != ykind]
+            if plan["public"] and mi == -1:
+                pool = [k for k in pool if k != "cont"] if ykind != "cont" else []
+            if pool:
+                plan["prior_ykind"] = rng.choice(pool)
         plan["clock"] = _clock_decisions(rng, 2 + 2 * 125, plan["progress_updates"] is not None)
         plan["xs"] = [[round(rng.uniform(-1, 1), 3) for _ in range(d)] for _ in range(n)]
         plan["xq"] = [[round(rng.uniform(-1.5, 1.5), 3) for _ in range(d)] for _ in range(rng.randint(1, 8))]
@@ -559,9 +568,13 @@ def _exec_equiv(plan, ctx):
     # estimator A: fit under the planned geometry / stop / clock
     A = _make_torch_estimator(plan, _callbacks(plan), plan["epochs"], plan["batch_size"], plan["max_iter"])
     prior = plan.get("prior_fits", 0)
+    y_prior = y
+    if plan.get("prior_ykind") and prior and not plan.get("warm_start"):
+        y_prior = np.array(_layout(n, plan["prior_ykind"], plan["akind"])[0])
+        ctx.fault("refit_after_other_target_kind")
     for _ in range(prior):
         with ctx.clock_installed():
-            okp, retp, sitep = ctx.call(A.fit, X, y, sensitive_features=a)
+            okp, retp, sitep = ctx.call(A.fit, X, y_prior, sensitive_features=a)
         ctx.ops += 1
         if not okp and _nonfinite_model(A):
             ctx.trivial("nan_model")
@@ -781,6 +794,8 @@ def shrink_candidates(plan):
         return q
 
     if mode in ("schedule", "equiv"):
+        if p.get("prior_ykind"):
+            yield mod(prior_ykind=None)
         if p.get("prior_fits"):
             yield mod(prior_fits=0)
             if p["prior_fits"] > 1:
